@@ -729,6 +729,10 @@ static void DecodeGen(Word Index) {
                 CurrGenInfo.DestPart = 0;
                 CurrGenInfo.Src1Mode = AdrMode;
                 CurrGenInfo.Src1Part = AdrPart;
+                T21_22 = 1ul << 21;
+                if (CurrGenInfo.Src2Mode == ModInd) {
+                    T21_22 |= 1ul << 22;
+                }
             }
             break;
         case ModNone:
